@@ -165,7 +165,7 @@ def correspondence(ctx):
     # multi-agent sessions on the real coordinator (joins, actions, collective resets, faults): every response - CREATED,
     # OK, FORBIDDEN, RESET_DONE - must carry the view the coordinator holds for THAT agent (monitor tagged C15 in coordcommon)
     from props import coordcommon as CC
-    CC.run_sessions(ctx, "C15", 84 if ctx.tier == "thorough" else 52,
+    CC.run_sessions(ctx, "C15", 86 if ctx.tier == "thorough" else 54,
                     lambda r: dict(n_events=r.choice([40, 70]), burst=0.2, fault=0.03, bad=0.03, resets=0.3),
                     lambda r: dict(required=r.choice([2, 2, 3]), max_steps=r.choice([1, 2, 3])))
     sess_cov = {k: ctx.coverage.get(k) for k in ("sessions", "labels_followed", "response_and_barrier_statistics")}
@@ -201,6 +201,27 @@ def correspondence(ctx):
         cases.append(("vdec", f"check_vdec {cbool(i % 2 == 0)} {json_term(shuffled(j, rng))} (Some {view_term(v)})", txt))
         if len(samples) < 2 and v.known_blocks and v.known_data:
             samples.append(json.loads(txt))
+    # networks that differ only in their host bits (or are different texts of mask 0) are DIFFERENT elements: views holding one or
+    # the other are unequal, and a document listing both decodes to a view with both
+    pairs = [(("192.168.1.0", 24), ("192.168.1.77", 24)), (("192.168.1.0", 24), ("192.168.1.255", 24)), (("0.0.0.0", 0), ("10.0.0.0", 0)),
+             (("10.1.2.3", 8), ("10.0.0.0", 8)), (("172.16.0.1", 32), ("172.16.0.1", 31)), (("192.168.1.4", 30), ("192.168.1.7", 30))]
+    for a, b in pairs:
+        base = dict(controlled_hosts=set(), known_hosts=set(), known_services={}, known_data={}, known_blocks={})
+        v1 = gc.GameState(known_networks={gc.Network(*a)}, **base)
+        v2 = gc.GameState(known_networks={gc.Network(*b)}, **base)
+        both = {gc.Network(*a), gc.Network(*b)}
+        if v1 == v2 or gc.Network(*a) == gc.Network(*b) or len(both) != 2:
+            ctx.violations.append({"key": "views with different elements compare equal",
+                                   "what": f"a view whose only network is {a[0]}/{a[1]} and one whose only network is {b[0]}/{b[1]} compare {'equal' if v1 == v2 else 'unequal'}; a set of the two networks has {len(both)} element(s)",
+                                   "replay": {"kind": "view", "view": json.loads(json.dumps(v1.as_dict))}})
+        doc = json.loads(v1.as_json())
+        doc["known_networks"] = [{"ip": a[0], "mask": a[1]}, {"ip": b[0], "mask": b[1]}]
+        for use_json in (False, True):
+            try:
+                got = gc.GameState.from_json(json.dumps(doc)) if use_json else gc.GameState.from_dict(doc)
+                cases.append(("vmal", f"check_vdec {cbool(use_json)} {json_term(doc)} (Some {view_term(got)})", json.dumps(doc)))
+            except Exception:
+                cases.append(("vmal", f"check_vdec {cbool(use_json)} {json_term(doc)} None", json.dumps(doc)))
     refused = accepted = 0
     for i, d in enumerate(malformed_views(gc, rng, 1800 if thorough else 600)):
         use_json = i % 2 == 0
